@@ -268,9 +268,16 @@ impl Sim {
     pub async fn op_tx(&mut self, i: usize, keys: &[i64], fail: &str) -> eyre::Result<()> {
         let own_before = { self.nodes[i].agent.booked().read::<&str, _>("vh", None).await.last().map(|v| v.0).unwrap_or(0) };
         let val = format!("{:06}", (i as u64 + 1) * 1000 + own_before + 1);
+        // a write that is overwritten later in the same transaction stores a throw-away value (writing the
+        // final value twice would be a no-op for cr-sqlite and consume no sequence number)
         let mut stmts: Vec<Statement> = keys
             .iter()
-            .map(|k| Statement::WithParams("INSERT INTO tests (id, text) VALUES (?, ?) ON CONFLICT (id) DO UPDATE SET text = excluded.text".into(), vec![SqliteParam::Integer(*k), SqliteParam::Text(val.clone().into())]))
+            .enumerate()
+            .map(|(pos, k)| {
+                let again = keys[pos + 1..].contains(k);
+                let text = if again { format!("tmp{pos}") } else { val.clone() };
+                Statement::WithParams("INSERT INTO tests (id, text) VALUES (?, ?) ON CONFLICT (id) DO UPDATE SET text = excluded.text".into(), vec![SqliteParam::Integer(*k), SqliteParam::Text(text.into())])
+            })
             .collect();
         match fail {
             "" => {}
@@ -563,6 +570,12 @@ pub async fn run_walk(seed: u64, nodes: usize, nkeys: i64, steps: usize, with_re
                 keys.swap(j, k);
             }
             keys.truncate(nk);
+            // sometimes the same cell is written twice in one transaction (leaves an unused sequence number)
+            if nk < 3 && rng.random_range(0..100) < 25 {
+                let again = keys[rng.random_range(0..keys.len())];
+                let pos = rng.random_range(0..=keys.len());
+                keys.insert(pos, again);
+            }
             let f = rng.random_range(0..10);
             let fail = match f {
                 0 => "constraint",
